@@ -18,10 +18,11 @@ RULE = ("Finite fault space over 6 harness-built feature-covering seed documents
         "FontFile/Type3; composite fonts with W/DW/W2/ToUnicode/FontFile2/predefined CMap; forms, images with predictor, "
         "inline image, colour spaces, ExtGState, marked content; filter chains with predictors and indirect Length; page "
         "labels/outlines/dests and a multi-level page tree; the same in object streams + xref stream) and the repository "
-        "samples simple1-5: every dictionary value and array element x 15 replacement values (null, bool, -1, 0, 2^31, "
+        "samples simple1-5: every dictionary value and array element x 16 replacement values (null, bool, -1, 0, 2^31, "
         "real, string, name, empty/non-empty array, empty/non-empty dict, self-reference, missing reference, reference "
-        "into the page tree), every key removal, every stream payload x {truncate at 8 points, flip one bit at 8 points, "
-        "garbage, empty}, truncation of the file at every byte (every 64th for the two large samples).  Each damaged "
+        "into the page tree, reference to an object that refers to the containing object = cycle of length >= 2), every "
+        "key removal, every stream payload x {truncate at 8 points, flip one bit at 8 points, garbage, empty}, every one "
+        "of the first 24 LZW codes x 10 boundary code values, truncation of the file at every byte (every 64th for the two large samples).  Each damaged "
         "file goes through extract_text, extract_pages and extract_text_to_fp(xml).  Oracle: return or an instance of "
         "PSException (AssertionError tolerated and counted, as the repository's fuzz harnesses do); anything else is a "
         "violation bucketed by (exception type, innermost pdfminer frame); work measured in sys.monitoring PY_START+JUMP "
@@ -33,9 +34,11 @@ ASSUMPTIONS = ["work inside C extensions (zlib, re, AES) is not counted; no faul
 
 REPO = os.environ.get("VERIF_REPO", "/repo")
 SAMPLE_FILES = ["samples/simple1.pdf", "samples/simple2.pdf", "samples/simple3.pdf", "samples/simple4.pdf", "samples/simple5.pdf"]
-REPL = [None, True, -1, 0, 2 ** 31, W.Real("0.5"), b"abc", W.N("Foo"), [], [1, 2, 3], {}, {b"A": 1}, "SELF", W.R(9999), W.R(2)]
+REPL = [None, True, -1, 0, 2 ** 31, W.Real("0.5"), b"abc", W.N("Foo"), [], [1, 2, 3], {}, {b"A": 1}, "SELF", W.R(9999), W.R(2),
+        "REFERRER"]
 REPL_NAMES = ["null", "true", "-1", "0", "2^31", "real", "string", "name", "[]", "[1 2 3]", "<<>>", "<</A 1>>", "self-ref",
-              "missing-ref", "pagetree-ref"]
+              "missing-ref", "pagetree-ref", "referrer-ref (cycle of length >= 2)"]
+LZW_CODE_VALUES = [0, 255, 256, 257, 258, 259, 300, 511, 512, 4095]
 
 _SEEDS = {}
 
@@ -102,6 +105,30 @@ def _set(value, path, new, remove=False):
     return lst
 
 
+def referrer(s, n):
+    """Smallest object number whose value contains a reference to object n (closing a cycle of length >= 2)."""
+    def refs(v):
+        if W.is_ref(v):
+            yield v[1]
+        elif W.is_stream(v):
+            yield from refs(v[1])
+        elif isinstance(v, dict):
+            for x in v.values():
+                yield from refs(x)
+        elif isinstance(v, list):
+            for x in v:
+                yield from refs(x)
+
+    for m in sorted(s["objs"]):
+        if m != n and n in set(refs(s["objs"][m])):
+            return m
+    return None
+
+
+def _plain_lzw(v):
+    return W.is_stream(v) and v[1].get(b"Filter") == W.N("LZWDecode") and b"DecodeParms" not in v[1]
+
+
 def fault_space(s):
     """All structural faults of a seed as JSON-able dicts (deterministic order)."""
     out = []
@@ -119,6 +146,11 @@ def fault_space(s):
                 out.append({"t": "payload", "obj": n, "how": "flip", "i": i})
             out.append({"t": "payload", "obj": n, "how": "garbage"})
             out.append({"t": "payload", "obj": n, "how": "empty"})
+            if _plain_lzw(v):
+                # code-level corruption of an LZW payload: every one of the first 24 code positions x boundary values
+                for pos in range(24):
+                    for val in LZW_CODE_VALUES:
+                        out.append({"t": "lzwcode", "obj": n, "pos": pos, "val": val})
     size = len(SD.write(s))
     for cut in range(0, size):
         out.append({"t": "truncate", "at": cut})
@@ -141,6 +173,11 @@ def apply_fault(s, f):
         new = REPL[f["r"]]
         if new == "SELF":
             new = W.R(f["obj"])
+        elif new == "REFERRER":
+            m = referrer(s, f["obj"])
+            if m is None:
+                return None
+            new = W.R(m)
         old = _get(objs[f["obj"]], path)
         if W.same(W.expected(old) if not W.is_stream(old) else ("x",), W.expected(new)):
             return None
@@ -172,6 +209,22 @@ def apply_fault(s, f):
         o2 = dict(objs)
         d = dict(st[1])
         # keep a declared direct Length consistent with the new payload (the fault is the payload, not the length)
+        if isinstance(d.get(b"Length"), int):
+            d[b"Length"] = len(new)
+        o2[f["obj"]] = ("S", d, new)
+        return SD.write(s, o2)
+    if f["t"] == "lzwcode":
+        from vlib import filters as FL
+
+        st = objs[f["obj"]]
+        plain = FL._ref_lzw_decode(st[2])
+        codes = FL.lzw_codes(plain)
+        if f["pos"] >= len(codes) or codes[f["pos"]] == f["val"]:
+            return None
+        codes[f["pos"]] = f["val"]
+        new = FL.lzw_pack(codes)
+        o2 = dict(objs)
+        d = dict(st[1])
         if isinstance(d.get(b"Length"), int):
             d[b"Length"] = len(new)
         o2[f["obj"]] = ("S", d, new)
@@ -307,6 +360,8 @@ def describe(case):
         return "seed %s object %d key %s removed" % (case["seed"], f["obj"], _fmt_path(f["path"]))
     if f["t"] == "payload":
         return "seed %s stream %d payload %s %s" % (case["seed"], f["obj"], f["how"], f.get("i", ""))
+    if f["t"] == "lzwcode":
+        return "seed %s LZW stream %d code #%d <- %d" % (case["seed"], f["obj"], f["pos"], f["val"])
     return "seed %s %s at byte %d" % (case["seed"], f["t"], f["at"])
 
 
@@ -340,7 +395,7 @@ def exhaustive(tier):
 def plan(tier):
     total = len(all_cases())
     if tier == "quick":
-        return [{"kind": "sample", "part": i, "parts": 16, "n": 500, "total": total} for i in range(16)]
+        return [{"kind": "sample", "part": i, "parts": 16, "n": 650, "total": total} for i in range(16)]
     chunk = 2000
     return [{"kind": "range", "lo": lo, "hi": min(total, lo + chunk)} for lo in range(0, total, chunk)]
 
@@ -348,10 +403,19 @@ def plan(tier):
 def run_shard(spec, ctx):
     cases = all_cases()
     if spec["kind"] == "sample":
+        # quick tier: the reference-cycle classes and all payload corruptions are always enumerated completely (they are
+        # where unbounded work / recursion hides and each is small); the type-replacement, key-removal and truncation
+        # faults are sampled with a seeded PRNG
+        def always(c):
+            f = c["fault"]
+            return f["t"] in ("payload", "lzwcode") or (f["t"] == "replace" and REPL[f["r"]] in ("SELF", "REFERRER") or
+                                                          (f["t"] == "replace" and f["r"] == 14))
+        fixed = [i for i, c in enumerate(cases) if always(c)]
+        rest = [i for i, c in enumerate(cases) if not always(c)]
         rnd = random.Random(ctx.seed * 1000003 + 17)
-        idx = rnd.sample(range(len(cases)), min(len(cases), spec["n"] * spec["parts"]))
-        mine = idx[spec["part"]::spec["parts"]]
-        sel = [cases[i] for i in sorted(mine)]
+        idx = fixed + rnd.sample(rest, min(len(rest), max(0, spec["n"] * spec["parts"] - len(fixed))))
+        mine = sorted(idx)[spec["part"]::spec["parts"]]
+        sel = [cases[i] for i in mine]
     else:
         sel = cases[spec["lo"]:spec["hi"]]
     res = enum_search(ctx, sel, run_case, stop_after=3)
